@@ -22,6 +22,12 @@ pub fn enumerate(case: &Case, base: &RunOutput, pairs: bool) -> Vec<Case> {
     let mut singles: Vec<Fault> = vec![];
     singles.push(Fault::StartFail { actor: t, inc: 0, how: FailHow::Err });
     singles.push(Fault::StartFail { actor: t, inc: 0, how: FailHow::Panic });
+    // a failing restart (only meaningful if the program restarts T)
+    let restarts = base.hist.iter().filter(|e| matches!(&e.kind, EvKind::Cb { actor, cb: Cb::Started, enter: true, .. } if *actor == t)).count() as u32;
+    for inc in 1..restarts.min(3) {
+        singles.push(Fault::StartFail { actor: t, inc, how: FailHow::Err });
+        singles.push(Fault::StartFail { actor: t, inc, how: FailHow::Panic });
+    }
     for k in 0..invocations.min(MAX_POSITIONS) {
         singles.push(Fault::HandlerPanic { actor: t, kth: k });
     }
@@ -37,7 +43,7 @@ pub fn enumerate(case: &Case, base: &RunOutput, pairs: bool) -> Vec<Case> {
         let mut durs: Vec<u32> = vec![];
         for cl in &case.clients {
             for op in cl {
-                if let ClientOp::Send { work, .. } | ClientOp::Call { work, .. } | ClientOp::CallDrop { work, .. } = op {
+                if let ClientOp::Send { work, .. } | ClientOp::Call { work, .. } | ClientOp::CallDrop { work, .. } | ClientOp::SendRepoll { work, .. } = op {
                     let d: u32 = work.iter().map(|s| if let Step::Sleep(x) = s { *x } else { 0 }).sum();
                     if d >= 2 && !durs.contains(&d) {
                         durs.push(d);
@@ -50,7 +56,7 @@ pub fn enumerate(case: &Case, base: &RunOutput, pairs: bool) -> Vec<Case> {
             // never equal to another handler's duration
             let t_out = d - 1;
             let clash = case.clients.iter().flatten().any(|op| match op {
-                ClientOp::Send { work, .. } | ClientOp::Call { work, .. } | ClientOp::CallDrop { work, .. } => work.iter().map(|s| if let Step::Sleep(x) = s { *x } else { 0 }).sum::<u32>() == t_out && t_out > 0,
+                ClientOp::Send { work, .. } | ClientOp::Call { work, .. } | ClientOp::CallDrop { work, .. } | ClientOp::SendRepoll { work, .. } => work.iter().map(|s| if let Step::Sleep(x) = s { *x } else { 0 }).sum::<u32>() == t_out && t_out > 0,
                 _ => false,
             });
             if clash || t_out == 0 {
